@@ -486,13 +486,13 @@ def check_C05(chk: Check, replay: str | None) -> None:
 
 
 # --------------------------------------------------------------------------- probes (C06, C10)
-def _gen_inputs(chk: Check, per_class: int, seed_off: int, jobs: int = 16):
+def _gen_inputs(chk: Check, per_class: int, seed_off: int, jobs: int = 16, variants: bool = False):
     classes = project.all_entity_classes()
     n = len(classes)
     K = 16
     slices = [(i * n // K, (i + 1) * n // K) for i in range(K)]
     in_args = [(os.path.join(chk.scratch, f"pin{i}.json"), slices[i], per_class,
-                chk.seed + seed_off, True) for i in range(K)]
+                chk.seed + seed_off, True, variants) for i in range(K)]
     ins = pmap(codec_driver.gen_probe_inputs, in_args)
     encoded = encode_with_spec(chk, [i["path"] for i in ins], jobs)
     return n, ins, encoded
@@ -528,7 +528,7 @@ def check_C06(chk: Check, replay: str | None) -> None:
         raise Machinery("replay: re-run the check with the same VERIF_SEED")
     thorough = chk.tier == "thorough"
     model_check_codec(chk, "MC_Codec_thorough.cfg" if thorough else "MC_Codec_quick.cfg")
-    n, ins, encoded = _gen_inputs(chk, 8 if thorough else 2, 11)
+    n, ins, encoded = _gen_inputs(chk, 8 if thorough else 2, 11, variants=True)
     args = [(ins[i]["path"], encoded[ins[i]["path"]], os.path.join(chk.scratch, f"tr{i}.json"),
              chk.seed + 13, 4096 if thorough else 600) for i in range(len(ins))]
     infos = pmap(codec_driver.gen_trunc_shard, args)
